@@ -1,6 +1,11 @@
 // Package utils provides shared utility functions used across the WTF application.
 package utils
 
+import (
+	"os"
+	"path/filepath"
+)
+
 // Min returns the minimum of two integers.
 func Min(a, b int) int {
 	if a < b {
@@ -15,4 +20,39 @@ func Max(a, b int) int {
 		return a
 	}
 	return b
+}
+
+// WriteFileAtomic replaces the file at path with data: the bytes go to a temporary file in
+// the same directory, which is flushed and then renamed over the target. A process killed
+// or a write failing at any point leaves the previous content of path untouched; on error
+// the temporary file is removed.
+func WriteFileAtomic(path string, data []byte, perm os.FileMode) error {
+	f, err := os.CreateTemp(filepath.Dir(path), filepath.Base(path)+".tmp-*")
+	if err != nil {
+		return err
+	}
+	tmp := f.Name()
+	fail := func(err error) error {
+		f.Close()
+		os.Remove(tmp)
+		return err
+	}
+	if _, err := f.Write(data); err != nil {
+		return fail(err)
+	}
+	if err := f.Chmod(perm); err != nil {
+		return fail(err)
+	}
+	if err := f.Sync(); err != nil {
+		return fail(err)
+	}
+	if err := f.Close(); err != nil {
+		os.Remove(tmp)
+		return err
+	}
+	if err := os.Rename(tmp, path); err != nil {
+		os.Remove(tmp)
+		return err
+	}
+	return nil
 }
